@@ -387,6 +387,8 @@ def known_finding_recipes():
                   nodes=[arg(0), ["const", ["float", "inf"], 0], op("minimum", 0, 1)], root=2, refs={}, stream="kf"))
     R.append(dict(target="numpy", name="kf_np_list_bool_debug1", args=[["x", "float64"]],
                   nodes=[arg(0), op("lt", 0, 0), op("negative", 0)], root=[2, 1], refs={}, stream="kf"))
+    R.append(dict(target="numpy", name="kf_np_copysign_mixed", args=[["x", "float32"], ["y", "float64"]],
+                  nodes=[arg(0), arg(1), op("copysign", 0, 1), op("exp2", 2)], root=3, refs={"2": ["tmp2", True]}, stream="kf"))
     R.append(dict(target="numpy", name="kf_np_const_alias", args=[["x", "float32"], ["y", "float64"]],
                   nodes=[arg(0), arg(1), ["const", ["float", fhex(0.1)], 0], ["const", ["float", fhex(0.1)], 1],
                          op("multiply", 0, 2), op("multiply", 1, 3), op("add", 4, 5)], root=6, refs={}, stream="kf"))
